@@ -334,6 +334,8 @@ class FuncTypes:
                 self._bind(n.target, ty)
             elif isinstance(n, (ast.For, ast.AsyncFor)):
                 self._bind(n.target, elem(self.of(n.iter)))
+            elif isinstance(n, ast.NamedExpr):
+                self._bind(n.target, self.of(n.value))
             elif isinstance(n, ast.With):
                 for it in n.items:
                     if it.optional_vars is not None:
@@ -468,6 +470,8 @@ class FuncTypes:
         if isinstance(e, ast.Call):
             return self._call(e)
         if isinstance(e, ast.Starred):
+            return self.of(e.value)
+        if isinstance(e, ast.NamedExpr):
             return self.of(e.value)
         if isinstance(e, ast.Lambda):
             return UNK
